@@ -350,7 +350,14 @@ func (p *Prog) modsetCall(fi *FuncInfo, ce *ast.CallExpr, ms map[string]bool, bi
 						continue
 					}
 					switch u := at.Underlying().(type) {
-					case *types.Signature, *types.Interface:
+					case *types.Signature:
+						if fl, isLit := ast.Unparen(a).(*ast.FuncLit); isLit {
+							// the literal's own writes are found by inspecting its body (it is part of this function)
+							_ = fl
+						} else {
+							ms["*"] = true
+						}
+					case *types.Interface:
 						ms["*"] = true
 					case *types.Pointer:
 						if st, stt := structOf(u); st != nil && !p.isOpaqueStruct(stt) {
@@ -413,7 +420,7 @@ func (p *Prog) modsetCall(fi *FuncInfo, ce *ast.CallExpr, ms map[string]bool, bi
 		}
 		return
 	}
-	if ct := p.contracts[cfi.Key]; ct != nil && (len(ct.Effects) > 0 || ct.HasModifies) {
+	if ct := p.contracts[cfi.Key]; ct != nil && (len(ct.Effects) > 0 || len(ct.CallSiteMods) > 0) {
 		ms["$ghost"] = true
 	}
 	// bind interface parameters to the concrete static types of the arguments
@@ -494,7 +501,7 @@ func modsetMatches(ms map[string]bool, hv string) bool {
 
 // contractModset adds the heap variables named by a contract's modifies clause (field granularity).
 func (p *Prog) contractModset(ct *Contract, fi *FuncInfo, ms map[string]bool) {
-	ms["$ghost"] = true
+	// ghost state changes only as far as the modifies clause says (ghost fields are named there like real ones)
 	typeOfName := func(name string) types.Type {
 		if fi.Sig == nil {
 			return nil
